@@ -75,6 +75,12 @@ func runC09(line string) string {
 	if sc == "limit-burst" {
 		return runLimitBurst(argn(2, 2), argn(3, 8))
 	}
+	if sc == "drain-during-bind" || sc == "stop-during-bind" {
+		c09Burst++
+		ret, open := proc.VerifDuringBind(uint32(freePort()), sc == "stop-during-bind", fmt.Sprintf("c09bind%d", c09Burst),
+			func(cond func() bool) bool { return waitFor(2*time.Second, cond) })
+		return fmt.Sprintf("serve-returned=%v port-open=%v", ret, open)
+	}
 	if sc == "register-after-stop" {
 		c09Burst++
 		if proc.VerifRegisterAfterStop(fmt.Sprintf("c09stop%d", c09Burst)) {
@@ -125,7 +131,7 @@ func runC09(line string) string {
 			}()
 		}
 	}
-	if sc == "stop-silent-backend" {
+	if sc == "stop-silent-backend" || sc == "stop-halfclosed-silent" {
 		cl.nodes[0].silent, cl.nodes[1].silent = true, true
 	}
 	if sc == "stop-backend-down" {
@@ -148,7 +154,7 @@ func runC09(line string) string {
 		hosts = append(hosts, host.New(s))
 	}
 	var blocker net.Listener
-	if sc == "stop-while-binding" {
+	if sc == "stop-while-binding" || sc == "drain-while-binding" {
 		blocker, _ = net.Listen("tcp", addr) // no SO_REUSEPORT: the processor's bind keeps failing
 	}
 	p, err := proc.New(fmt.Sprintf("c09x%d", nextProcSeq()), cfg, hosts)
@@ -194,6 +200,40 @@ func runC09(line string) string {
 		time.Sleep(time.Duration(argn(2, 0)) * time.Microsecond)
 	case "stop-while-binding":
 		settle(120 * time.Millisecond)
+	case "drain-while-binding":
+		// Drain arrives while the bind is being retried; then the port becomes free: the service must not begin to serve
+		settle(120 * time.Millisecond)
+		ok := within(3*time.Second, func() { p.StopListen() })
+		out += "drain=" + map[bool]string{true: "ok", false: "HUNG"}[ok] + " "
+		blocker.Close()
+		blocker = nil
+		settle(800 * time.Millisecond) // the bind loop tries again every 500 ms
+		nw := "refused"
+		if c, err := net.DialTimeout("tcp", addr, 200*time.Millisecond); err == nil {
+			c.SetReadDeadline(time.Now().Add(500 * time.Millisecond))
+			if proto == "redis" {
+				c.Write(bulkArr([]byte("ping")).bytes())
+			} else {
+				c.Write([]byte("x"))
+			}
+			b := make([]byte, 16)
+			if n, _ := c.Read(b); n > 0 {
+				nw = "SERVED"
+			}
+			c.Close()
+		}
+		out += "new=" + nw + " "
+	case "stop-halfclosed-silent":
+		// a client sends a request to a backend that never answers and half-closes; then Stop
+		waitListening()
+		settle(20 * time.Millisecond)
+		if c, err := net.DialTimeout("tcp", addr, time.Second); err == nil {
+			clients = append(clients, c)
+			c.Write(bulkArr([]byte("get"), []byte("k1")).bytes())
+			settle(20 * time.Millisecond)
+			c.(*net.TCPConn).CloseWrite()
+		}
+		settle(40 * time.Millisecond)
 	case "stop-active", "drain-then-stop", "stop-silent-backend", "stop-backend-down", "stop-twice":
 		waitListening()
 		settle(20 * time.Millisecond)
@@ -398,7 +438,7 @@ func init() {
 					lines = append(lines, proto+" "+sc)
 				}
 			}
-			lines = append(lines, "redis stop-silent-backend 2", "tcp register-after-stop")
+			lines = append(lines, "redis stop-silent-backend 2", "tcp register-after-stop", "redis stop-halfclosed-silent", "redis drain-while-binding", "tcp drain-while-binding", "tcp drain-during-bind", "tcp stop-during-bind")
 			for i := 0; i < 6; i++ {
 				lines = append(lines, fmt.Sprintf("tcp limit-burst %d %d", 1+r.intn(3), 6+r.intn(20)))
 				lines = append(lines, fmt.Sprintf("tcp register-burst %d %d", 1+r.intn(4), 32+r.intn(64)))
